@@ -18,6 +18,7 @@ import (
 	"errors"
 	"fmt"
 	"log"
+	"math"
 	"reflect"
 	"strconv"
 	"strings"
@@ -433,6 +434,9 @@ func handleIncr(params internal.HandlerFuncParams) ([]byte, error) {
 			fmt.Printf("unexpected type for currentValue: %T\n", currentValue)
 			return nil, errors.New("unexpected type for currentValue") // Handle unexpected types
 		}
+		if currentValueInt == math.MaxInt64 {
+			return nil, errors.New("increment or decrement would overflow")
+		}
 		newValue = currentValueInt + 1 // Increment the value
 	}
 
@@ -479,6 +483,9 @@ func handleDecr(params internal.HandlerFuncParams) ([]byte, error) {
 		default:
 			fmt.Printf("unexpected type for currentValue: %T\n", currentValue)
 			return nil, errors.New("unexpected type for currentValue") // Handle unexpected types
+		}
+		if currentValueInt == math.MinInt64 {
+			return nil, errors.New("increment or decrement would overflow")
 		}
 		newValue = currentValueInt - 1 // Decrement the value
 	}
@@ -531,6 +538,10 @@ func handleIncrBy(params internal.HandlerFuncParams) ([]byte, error) {
 		default:
 			fmt.Printf("unexpected type for currentValue: %T\n", currentValue)
 			return nil, errors.New("unexpected type for currentValue") // Handle unexpected types
+		}
+		if (incrValue > 0 && currentValueInt > math.MaxInt64-incrValue) ||
+			(incrValue < 0 && currentValueInt < math.MinInt64-incrValue) {
+			return nil, errors.New("increment or decrement would overflow")
 		}
 		newValue = currentValueInt + incrValue // Increment the value by the specified amount
 	}
@@ -625,6 +636,9 @@ func handleDecrBy(params internal.HandlerFuncParams) ([]byte, error) {
 	// Check if the key exists and its current value
 	if !ok || currentValue == nil {
 		// If key does not exist, initialize it with the decrement value
+		if decrValue == math.MinInt64 {
+			return nil, errors.New("increment or decrement would overflow")
+		}
 		newValue = decrValue * -1
 	} else {
 		// Use type switch to handle different types of currentValue
@@ -641,6 +655,10 @@ func handleDecrBy(params internal.HandlerFuncParams) ([]byte, error) {
 		default:
 			fmt.Printf("unexpected type for currentValue: %T\n", currentValue)
 			return nil, errors.New("unexpected type for currentValue") // Handle unexpected types
+		}
+		if (decrValue > 0 && currentValueInt < math.MinInt64+decrValue) ||
+			(decrValue < 0 && currentValueInt > math.MaxInt64+decrValue) {
+			return nil, errors.New("increment or decrement would overflow")
 		}
 		newValue = currentValueInt - decrValue // decrement the value by the specified amount
 	}
